@@ -29,11 +29,13 @@ let call_s = function
   | SClose t -> Printf.sprintf "C%d" (int_of_n t)
   | SSavepoint h -> Printf.sprintf "S%d" (int_of_n h)
   | SDropSavepoint h -> Printf.sprintf "R%d" (int_of_n h)
+  | _ -> "?"
 let name_of = function
   | "X.set_dirty" -> NSetDirty | "X.set_dirty.stored" -> NSetDirtyStored | "T.any_savepoint" -> NAnySavepoint
   | "X.esp" -> NEsp | "X.esp.locked" -> NEspLocked | "T.register_read" -> NRegisterRead
   | "T.alloc_savepoint" -> NAllocSavepoint | "X.esp.unlocked" -> NEspUnlocked | "M.get_data_root" -> NGetDataRoot
   | "M.get_version" -> NGetVersion | "T.dealloc_savepoint" -> NDeallocSavepoint | "T.dealloc_read" -> NDeallocRead
+  | "X.psp.system" -> NPspSys | "X.psp.system.locked" -> NPspSysLocked
   | s -> failwith ("pause point " ^ s)
 let res_s = function SOk -> "ok" | SErrDirty -> "dirty" | SErrOpen -> "already-open"
 
